@@ -8,7 +8,7 @@ VERIF = os.path.dirname(os.path.dirname(os.path.abspath(__file__)))
 CLAIMED = {
     "C01": ("exploration",
             "stateful property-based testing (rapid): branching operation histories over a pool of live meshes with a bit-exact snapshot invariant after every step",
-            "Generated histories (up to 40 steps, <= 8 live meshes) of ~55 public operations (Mesh methods, meshops, repeat, primitives, PLY/OBJ/glTF/STL writers) applied to drawn pool members, so several derivations branch off one base; after every step every live mesh is re-read through the accessors and compared bit for bit with the snapshot taken when it was obtained. A drawn share of steps derives siblings from the previous step's base (two appends on one base with spare slice capacity), one fresh mesh in eight carries NaN/Inf/-0/extreme values, material names contain spaces, and a 'scan' step calls the read-only accessors between edits. Shrinks to a 5-step history for the Append defect. Sampling level (10^4..10^6 histories), not a proof.",
+            "Generated histories (up to 40 steps, <= 8 live meshes) of ~55 public operations (Mesh methods, meshops, repeat, primitives, PLY/OBJ/glTF/STL writers) applied to drawn pool members, so several derivations branch off one base; after every step every live mesh is re-read through the accessors and compared bit for bit with the snapshot taken when it was obtained. A drawn share of steps derives siblings from the previous step's base (two appends on one base with spare slice capacity), one fresh mesh in eight carries NaN/Inf/-0/extreme values, material names contain spaces, and a 'scan' step calls the read-only accessors between edits. Sub-check large-history: short histories whose pool starts with a recipe-built mesh above 65 536 vertices. Shrinks to a 5-step history for the Append defect. Sampling level (10^4..10^6 histories), not a proof.",
             "Trusted: oracle.Snapshot reads everything a mesh reports; operations that panic are no-ops for this property; aliasing needing > 40 steps or > 8 live values is out of reach.",
             "DESIGN.md §4 C01"),
     "C02": ("exploration",
